@@ -12,6 +12,8 @@ package main
 //	phi1    Xbar_j += d·G                                   only (31)+(34) fails
 //	phi2    Ybar_j += d·G                                   only (32)+(35) fails
 //	eq33    (Xbar_j,Ybar_j) *= s,  sigma_j /= s              only (33)@j fails
+//	eq33pair two slots j, j'=j+1: sigma_j /= s, sigma_j' += sigma_j - sigma_j/s (the SUM of the responses is kept),
+//	          slot j *= s, slot j' *= sigma_j'(old)/sigma_j'(new)      only (33)@j and (33)@j' fail, their sum holds
 //	bindY   … and D_j = sigma_j·Gamma − W_j                 only simple.Y_j == C_j+lambda·D_j fails
 //	bindX   … and simple.Y_j = C_j+lambda·D_j,
 //	          simple.X_pi(j) = simple.Y_j / gamma             only simple.X_pi(j) == A+lambda·B fails
@@ -36,7 +38,7 @@ import (
 	"verif/internal/mon"
 )
 
-var c15TamperModes = []string{"eq33", "bindY", "bindX", "simple", "phi1", "phi2"}
+var c15TamperModes = []string{"eq33", "bindY", "bindX", "simple", "phi1", "phi2", "eq33pair"}
 
 // tamperProver is the honest Neff prover for (pi, beta) on (X, Y) with the
 // transcript adjustments of `mode` for slot jj and scale sc.
@@ -87,6 +89,16 @@ func (j *c15J) tamperProver(G, H kyber.Point, X, Y []kyber.Point, pi []int, beta
 		}
 		if scaled {
 			sigma[jj] = s.Scalar().Div(sigma[jj], sc)
+		}
+		if mode == "eq33pair" {
+			j2 := (jj + 1) % k
+			old0, old1 := sigma[jj], sigma[j2]
+			sigma[jj] = s.Scalar().Div(old0, sc)
+			sigma[j2] = s.Scalar().Add(old1, s.Scalar().Sub(old0, sigma[jj]))
+			j.pairScale = nil
+			if !sigma[j2].Equal(s.Scalar().Zero()) {
+				j.pairScale = s.Scalar().Div(old1, sigma[j2])
+			}
 		}
 		if mode == "bindY" || mode == "bindX" || mode == "simple" {
 			dD[jj] = s.Scalar().Mul(gamma, s.Scalar().Sub(sigma[jj], w[jj]))
@@ -146,8 +158,13 @@ func c15PlanTamper(r *mon.R, e *c15Env, plan *gen.Rng, add func(c15Job)) {
 		for tp := 0; tp < 2*k; tp++ {
 			tj(k, 0, "simple", tp%k, tp)
 		}
+		for ti := 0; ti < k; ti++ {
+			tj(k, 0, "eq33pair", ti, 0)
+		}
 	}
 	for _, k := range []int{5, 8} {
+		tj(k, 0, "eq33pair", 0, 0)
+		tj(k, 0, "eq33pair", k-1, 0)
 		for _, ti := range []int{0, k - 1, -1} {
 			for _, m := range []string{"eq33", "bindY", "bindX"} {
 				tj(k, 0, m, ti, 0)
@@ -237,6 +254,7 @@ func (j *c15J) jobTamper(jb c15Job) {
 	}
 	// the claimed (tampered) output
 	var sc kyber.Scalar
+	var prf []byte
 	for {
 		switch j.rng.IntN(3) {
 		case 0:
@@ -248,6 +266,14 @@ func (j *c15J) jobTamper(jb c15Job) {
 		}
 		if !sc.Equal(s.Scalar().One()) {
 			break
+		}
+	}
+	{
+		var err error
+		// the transcript depends on (X, Y, pi, beta) and the adjustments only, not on the claimed output
+		prf, err = proof.HashProve(j.s, "PairShuffle", j.tamperProver(in.G, in.H, xu, yu, pi, beta, mode, jj, sc, jb.tp))
+		if err != nil {
+			panic("harness: tampering prover failed: " + err.Error())
 		}
 	}
 	cl2 := func(p [][]kyber.Point) [][]kyber.Point {
@@ -271,6 +297,17 @@ func (j *c15J) jobTamper(jb c15Job) {
 			Xc[q][jj] = s.Point().Mul(sc, Xc[q][jj])
 			Yc[q][jj] = s.Point().Mul(sc, Yc[q][jj])
 		}
+		if mode == "eq33pair" {
+			if j.pairScale == nil {
+				j.r.NoteAdd("tampered_transcripts_not_constructible(sigma'=0)", 1)
+				return
+			}
+			j2 := (jj + 1) % k
+			for q := range Xc {
+				Xc[q][j2] = s.Point().Mul(j.pairScale, Xc[q][j2])
+				Yc[q][j2] = s.Point().Mul(j.pairScale, Yc[q][j2])
+			}
+		}
 	}
 	stmtFalse := !j.isShuffle(in.hS, X, Y, Xc, Yc)
 	cxd, cyd := Xc[0], Yc[0]
@@ -279,10 +316,6 @@ func (j *c15J) jobTamper(jb c15Job) {
 	}
 	st := &c15Stmt{G: in.aG(), H: in.H, X: xu, Y: yu, Xb: cxd, Yb: cyd, name: "PairShuffle"}
 	j.r.Op("proof.HashProve", "proof.HashVerify", "shuffle.Verifier", "shuffle.PairShuffle.Verify", "shuffle.SimpleShuffle.Verify")
-	prf, err := proof.HashProve(j.s, "PairShuffle", j.tamperProver(in.G, in.H, xu, yu, pi, beta, mode, jj, sc, jb.tp))
-	if err != nil {
-		panic("harness: tampering prover failed: " + err.Error())
-	}
 	ref := j.refPair(st, prf)
 	pos := "middle"
 	switch {
@@ -333,7 +366,7 @@ func (j *c15J) jobTamper(jb c15Job) {
 		j.r.Eval(scheme+"/cheating-prover/tampered-honest-run/statement-true-skipped", j.id+desc, false)
 		return
 	}
-	what := map[string]string{"eq33": "33", "bindY": "bY", "bindX": "bX", "simple": "simple", "phi1": "34", "phi2": "35"}[mode]
+	what := map[string]string{"eq33": "33", "eq33pair": "33", "bindY": "bY", "bindX": "bX", "simple": "simple", "phi1": "34", "phi2": "35"}[mode]
 	idx := -1
 	class := scheme + "/cheating-prover/tampered-honest-run/only-" + mode + "-fails"
 	switch mode {
@@ -367,6 +400,11 @@ func (j *c15J) jobTamper(jb c15Job) {
 		class += "/k=2"
 	}
 	intended := ref.onlyFails(what, idx)
+	if mode == "eq33pair" {
+		// exactly the two per-slot checks (33) fail, nothing else
+		intended = ref.err == nil && !ref.eq33 && ref.eq34 && ref.eq35 && ref.simple && ref.bX && ref.bY && len(ref.f33) == 2
+		class += "/two-coordinated-slots"
+	}
 	j.r.Eval(class, j.id+desc, intended)
 	if !intended {
 		j.r.NoteAdd("tampered_transcripts_not_as_intended", 1)
